@@ -360,6 +360,23 @@ func execDebOps(vec J, out *Writer) {
 				handles[h], closers[h] = dd, c
 				obs["ok"] = true
 				obs["package"] = B(dd.Control.Package)
+			case "loadlink":
+				// the same through a symbolic link (relative target) to the package file
+				if putFile(path, pkgs[I(o["p"])-1]) != nil {
+					return
+				}
+				link := filepath.Join(dir, "current.deb")
+				os.Remove(link)
+				if os.Symlink("pkg.deb", link) != nil {
+					return
+				}
+				dd, c, err := deb.LoadFile(link)
+				if err != nil {
+					return
+				}
+				handles[h], closers[h] = dd, c
+				obs["ok"] = true
+				obs["package"] = B(dd.Control.Package)
 			case "closer":
 				if c := closers[h]; c != nil {
 					obs["ok"] = c() == nil
